@@ -105,7 +105,9 @@ func genC04Script(seed uint32, large bool) c04Script {
 		for j, f := range mf {
 			sc.Frames = append(sc.Frames, SFrame{F: f})
 			if j < len(mf)-1 && t.Pct(25) {
-				sc.Frames = append(sc.Frames, SFrame{F: wsref.Frame{Fin: true, Opcode: wsref.OpPing, Payload: []byte("p")}})
+				// (an empty control frame is a final frame with nothing left to read:
+				// exactly what the end of a message looks like to the reader's state)
+				sc.Frames = append(sc.Frames, SFrame{F: wsref.Frame{Fin: true, Opcode: []byte{wsref.OpPing, wsref.OpPong}[t.Draw(2)], Payload: [][]byte{nil, []byte("p")}[t.Draw(2)]}})
 			}
 		}
 		sc.Msgs = append(sc.Msgs, data)
